@@ -38,12 +38,13 @@ class Conn:
                        'kex_inits': 0, 'closed_by_tool': False, 'client_banner': None, 'client_kexinit': None,
                        'packets_in': []}
         owner.records.append(self.record)
+        self.rst_known = False      # the peer's abort has reached the tool's sending side although received data is still unread
         self.gen = script(self)
         self._advance(None)
 
     # -- tool side interface
     def from_tool(self, data):
-        if self.out and self.out[0] is RST:
+        if (self.out and self.out[0] is RST) or (self.rst_known and RST in self.out):
             raise ConnectionResetError(errno.ECONNRESET, 'Connection reset by peer')
         self.inbuf += data
         self.raw_in += data
@@ -139,6 +140,10 @@ class Conn:
             elif kind == 'reset':
                 self._finish(RST)
                 return
+            elif kind == 'reset_known':
+                self._finish(RST)
+                self.rst_known = True
+                return
             elif kind == 'stall':
                 self.stalled = True
                 self.record['events'].append('stall')
@@ -187,6 +192,13 @@ class Conn:
         if kind == 'reset':
             self._finish(RST)
             return True
+        if kind == 'then_reset':
+            # the whole message, then an abortive close that the tool's *sending* side sees at once (ECONNRESET on the next send),
+            # while the bytes already received stay readable - what a TCP stack does when the RST overtakes the application
+            self._queue(data)
+            self._finish(RST)
+            self.rst_known = True
+            return True
         if kind == 'garbage':
             n, seed = fault[1], fault[2]
             x = (seed * 2654435761 + 12345) & 0xffffffff
@@ -209,6 +221,14 @@ class Conn:
             b = bytearray(data)
             b[5] = fault[1]
             self._queue(bytes(b))
+            return False
+        if kind == 'ssh1_drop':      # a correctly framed SSH-1 packet (length, padding, CRC all consistent) whose body lost its last k bytes
+            import struct as _st
+            ln = _st.unpack('>I', data[:4])[0]
+            padlen = 8 - ln % 8
+            body = data[4 + padlen:4 + padlen + ln - 4]
+            keep = body[1:len(body) - fault[1]] if fault[1] < len(body) else b''
+            self._queue(wire.serialize(wire.ssh1_packet_tree(body[0], keep)))
             return False
         if kind == 'flip':           # flip one byte
             b = bytearray(data)
@@ -249,7 +269,7 @@ class Conn:
 def faults_for_site(site, level='full', trunc_step=1):
     """The fault menu for one emitted message."""
     n = site['len']
-    out = [('trunc_close', 0), ('trunc_stall', 0), ('reset',)]
+    out = [('trunc_close', 0), ('trunc_stall', 0), ('reset',), ('then_reset',)]
     if level == 'message':
         ks = sorted(set([1, n // 2, n - 1]) - {0, n})
     else:
@@ -277,6 +297,8 @@ def faults_for_site(site, level='full', trunc_step=1):
         out.append(('prelines', 1))
         out.append(('prelines', 3))
     elif site['label'] == 'ssh1_pubkey':
+        for k in (1, 4, 8, 12, 40, 10 ** 6):
+            out.append(('ssh1_drop', k))
         for off in sorted(set([0, 3, 4, n // 2, n - 5, n - 1])):
             if 0 <= off < n:
                 out.append(('flip', off, 0x01))
@@ -389,7 +411,7 @@ class Server:
                                  'gex_requests': [], 'kex_inits': 0, 'closed_by_tool': True, 'packets_in': []})
             return 'timeout'
         script = {'normal': self.script, 'silent': self.script_silent, 'close': self.script_close,
-                  'exceeded': self.script_exceeded}[beh]
+                  'exceeded': self.script_exceeded, 'reset': self.script_reset}[beh]
         return Conn(world, self, vsock, idx, script)
 
     # -- scripts
@@ -398,6 +420,10 @@ class Server:
 
     def script_close(self, c):
         yield ('close',)
+
+    def script_reset(self, c):
+        # accepted, then aborted (RST): the tool's next receive fails with ECONNRESET
+        yield ('reset',)
 
     def script_exceeded(self, c):
         yield ('send', b'Exceeded MaxStartups\r\n', 'exceeded')
@@ -505,18 +531,23 @@ class Server:
             yield ('packet',)
 
 
-def standard_host_keys(key_algs, rsa_bits=3072, ca='ed25519', ca_bits=3072, cert_host_bits=None):
-    """Build host-key blobs for every algorithm in key_algs that the tool probes."""
-    out = {}
+def _ca_tree(ca, ca_bits):
     if ca == 'ed25519':
-        ca_tree = wire.ed25519_blob_tree(b'\x44' * 32)
-    elif ca == 'rsa':
-        ca_tree = wire.rsa_blob_tree(ca_bits)
-    elif isinstance(ca, int):
-        ca_tree = wire.ecdsa_blob_tree(ca)
-    else:
-        ca_tree = ca
+        return wire.ed25519_blob_tree(b'\x44' * 32)
+    if ca == 'rsa':
+        return wire.rsa_blob_tree(ca_bits)
+    if isinstance(ca, int):
+        return wire.ecdsa_blob_tree(ca)
+    return ca
+
+
+def standard_host_keys(key_algs, rsa_bits=3072, ca='ed25519', ca_bits=3072, cert_host_bits=None, ca_by_alg=None):
+    """Build host-key blobs for every algorithm in key_algs that the tool probes.  ca_by_alg {algorithm: (ca, ca_bits)} gives single
+    certificates a CA of their own."""
+    out = {}
+    default_ca_tree = _ca_tree(ca, ca_bits)
     for a in key_algs:
+        ca_tree = _ca_tree(*ca_by_alg[a]) if ca_by_alg and a in ca_by_alg else default_ca_tree
         if a in RSA_FAMILY:
             out[a] = wire.rsa_blob_tree(rsa_bits)
         elif a == 'ssh-ed25519':
